@@ -27,6 +27,7 @@ import (
 	"net/url"
 	"os"
 	"path"
+	"path/filepath"
 	"sort"
 	"strconv"
 	"strings"
@@ -614,6 +615,9 @@ func (b Browse) ServeArchive(w http.ResponseWriter, r *http.Request, dirPath str
 		}
 
 		if bc.Fs.IsHidden(info) {
+			if info.IsDir() {
+				return filepath.SkipDir // nor is anything below a hidden directory
+			}
 			return nil // Hidden files are not part of the archive either
 		}
 
